@@ -222,7 +222,7 @@ Definition norm_scalar (t : fty) (v : N) : N :=
   | TU32 => v mod two32
   | TI32 | TEnum => sext32 v
   | TBool => if v =? 0 then 0 else 1
-  | _ => v
+  | _ => v mod two64
   end.
 
 (* varint occurrences / length-delimited occurrences of field [num], in wire order *)
@@ -256,12 +256,13 @@ Fixpoint all_some {A} (l : list (option A)) : option (list A) :=
   | None :: _ => None
   end.
 
-Fixpoint dec_val (t : fty) (num : N) (rs : list rfield) : option val :=
+(* [vs] / [ps]: the varint / length-delimited occurrences of the field, in wire order *)
+Fixpoint dec_val (t : fty) (vs : list N) (ps : list bytes) : option val :=
   match t with
   | TMsg s =>
-      match lens_of num rs with
+      match ps with
       | [] => Some (VMsg None)
-      | ps =>
+      | _ =>
           match parse_all ps with
           | Some rss =>
               match dec_fields s (concat rss) with
@@ -272,7 +273,7 @@ Fixpoint dec_val (t : fty) (num : N) (rs : list rfield) : option val :=
           end
       end
   | TRep s =>
-      match parse_all (lens_of num rs) with
+      match parse_all ps with
       | Some rss =>
           match all_some (map (dec_fields s) rss) with
           | Some ms => Some (VRep ms)
@@ -280,17 +281,15 @@ Fixpoint dec_val (t : fty) (num : N) (rs : list rfield) : option val :=
           end
       | None => None
       end
-  | TBytes => Some (VBytes (last (lens_of num rs) []))
-  | TString =>
-      let ps := lens_of num rs in
-      if forallb utf8_valid ps then Some (VBytes (last ps [])) else None
-  | _ => Some (VInt (norm_scalar t (last (vars_of num rs) 0)))
+  | TBytes => Some (VBytes (last ps []))
+  | TString => if forallb utf8_valid ps then Some (VBytes (last ps [])) else None
+  | _ => Some (VInt (norm_scalar t (last vs 0)))
   end
 with dec_fields (s : schema) (rs : list rfield) : option msg :=
   match s with
   | SNil => Some []
   | SCons num t s' =>
-      match dec_val t num rs, dec_fields s' rs with
+      match dec_val t (vars_of num rs) (lens_of num rs), dec_fields s' rs with
       | Some v, Some m => Some (v :: m)
       | _, _ => None
       end
